@@ -127,7 +127,7 @@ func ruleProtocol(c *Ctx, rule string) {
 		fn := p.SSAFunc(p.Method("boltz", "BaseStore", m))
 		name := FnName(fn)
 		c.Analysed(name)
-		fi := ComputeFacts(fn)
+		_ = ComputeFacts
 		var persist ssa.Instruction
 		for _, call := range callsIn(fn) {
 			if isPersist(call) {
@@ -146,7 +146,7 @@ func ruleProtocol(c *Ctx, rule string) {
 		ok := true
 		where := ""
 		for _, r := range returnsOf(fn) {
-			if (ri.entryReach[r.Block()] || r.Block() == persist.Block()) && ri.Reaches(r) && classifyErr(fi, r.Block(), r.Results[0], 0) != errNonNil {
+			if (ri.entryReach[r.Block()] || r.Block() == persist.Block()) && ri.ReachesSuccess(r, 0) {
 				ok = false
 				where = p.Pos(r.Pos())
 			}
@@ -1033,7 +1033,7 @@ func ruleLinkPair(c *Ctx, rule string) {
 		ei := errorResultIndex(fn.Signature)
 		for _, r := range returnsOf(fn) {
 			reach := ri.entryReach[r.Block()] || (r.Block() == local.Block() && instrIndex(r) > instrIndex(local))
-			if reach && ri.Reaches(r) && classifyErr(fi, r.Block(), r.Results[ei], 0) != errNonNil {
+			if reach && ri.ReachesSuccess(r, ei) {
 				// returning the holder's own error after it was found non-nil is a failure path
 				if isHolderErrReturn(fi, r, ei) {
 					continue
@@ -1333,7 +1333,7 @@ func ruleDeleteOrch(c *Ctx, rule string) {
 		// success returns (other than parent delegation / missing entities bucket) pass DeleteEntity
 		ri2 := reachWithout(fn, func(in ssa.Instruction) bool { return in == ssa.Instruction(del) })
 		for _, r := range returnsOf(fn) {
-			if !ri2.Reaches(r) || classifyErr(fi, r.Block(), r.Results[0], 0) == errNonNil {
+			if !ri2.ReachesSuccess(r, 0) {
 				continue
 			}
 			if call, isCall := r.Results[0].(*ssa.Call); isCall && invokeNamed(call, "DeleteById") {
